@@ -21,12 +21,17 @@ import (
 	"github.com/mycoria/mycoria/m"
 
 	"mycoverif/core"
+	"mycoverif/fullmesh"
 	"mycoverif/mesh"
 	"mycoverif/simnet"
 )
 
 func run(e *core.Env) {
 	tp := e.Tape
+	if tp.Intn(10) == 0 {
+		runFullStack(e)
+		return
+	}
 	e.StartClock()
 	opts := mesh.Options{MinNodes: 2, MaxNodes: 16, MaxExtraEdges: 3, TwoByteLabels: true, BigInfo: true}
 	switch tp.Intn(8) {
@@ -352,6 +357,136 @@ func run(e *core.Env) {
 		e.Probe("links_came_back_with_other_labels")
 	}
 	e.Sample("%d announce instances, %d deliveries, max hop depth %d, %d pairs reach-checked", len(insts), totalSteps, maxDepth, len(pairs))
+}
+
+// runFullStack is the same claim on the complete shipped stack: 3..6 real top-level router
+// instances (mycoria.New with the tun interface disabled) that listen on and dial the simulated
+// loopback interface with the shipped TCP peering protocol, so that the peering handshake, the
+// link layer with its reader and writer workers, keep-alives, the switch and the router all run
+// as shipped; only the byte transport is simulated. The tape orders the byte records in flight
+// (FIFO per connection direction). After every router has announced itself over its links
+// (the shipped announce worker: 5 s after start, then every 5 minutes) and the network has
+// drained, every router must hold an exact-destination route to every other router, and a
+// routed probe ping from any router must be handed to the destination's handler and to no
+// other router's. In a third of the runs one connection then breaks (EOF or I/O error); the
+// shipped connect manager re-dials, and after the next announcement round the same must hold.
+func runFullStack(e *core.Env) {
+	tp := e.Tape
+	e.StartClock()
+	ms := fullmesh.Build(e, fullmesh.Options{MinNodes: 3, MaxNodes: 6, IdentBase: 8 * tp.Intn(2)})
+	n := len(ms.Insts)
+	e.Probe("fullstack_run")
+	waitLinked := func(max int) bool {
+		for k := 0; k < max && !ms.AllLinked(); k++ {
+			ms.CN.RunFor(tp, 10*time.Second, 40000)
+		}
+		return ms.AllLinked()
+	}
+	// The connect manager retries every second (then every five) while a router has no link
+	// at all, and once a minute otherwise.
+	if !waitLinked(14) {
+		// Whether two honest routers peer is C20's subject; without a connected mesh C09
+		// claims nothing. Counted, not judged.
+		e.Probe("fullstack_mesh_did_not_come_up")
+		return
+	}
+	ms.CheckPanics("after peering")
+	reach := func(tag string) {
+		for u := 0; u < n; u++ {
+			for v := 0; v < n; v++ {
+				if u == v {
+					continue
+				}
+				U, V := ms.Insts[u], ms.Insts[v]
+				rte, isDst := U.In.RoutingTable().LookupNearest(V.IP)
+				if rte == nil || rte.DstIP != V.IP || !isDst {
+					got := "nothing"
+					if rte != nil {
+						got = rte.DstIP.String()
+					}
+					e.Fail("full-stack/no-exact-route-after-drain"+tag, "%s mesh of %d real instances, edges %v: %s has no exact route to %s (lookup gave %s)", ms.Kind, n, ms.Edges, U.Name, V.Name, got)
+				}
+			}
+		}
+		// routed probes between sampled pairs
+		type pr struct{ u, v int }
+		var pairs []pr
+		for u := 0; u < n; u++ {
+			for v := 0; v < n; v++ {
+				if u != v {
+					pairs = append(pairs, pr{u, v})
+				}
+			}
+		}
+		for _, k := range tp.Perm(len(pairs))[:min(len(pairs), 8)] {
+			p := pairs[k]
+			ms.TakeProbes()
+			payload := fmt.Sprintf("probe %d>%d", p.u, p.v)
+			if err := ms.SendProbe(p.u, p.v, payload); err != nil {
+				e.Fail("full-stack/probe-not-routable"+tag, "%s cannot route a probe to %s although it holds an exact route: %v", ms.Insts[p.u].Name, ms.Insts[p.v].Name, err)
+			}
+			ms.CN.RunFor(tp, 2*time.Second, 20000)
+			at := false
+			for _, g := range ms.TakeProbes() {
+				if g.Payload != payload {
+					continue
+				}
+				if g.At != p.v {
+					e.Fail("full-stack/probe-handled-at-wrong-router"+tag, "probe %s>%s was handed to %s", ms.Insts[p.u].Name, ms.Insts[p.v].Name, ms.Insts[g.At].Name)
+				}
+				if g.Src != ms.Insts[p.u].IP {
+					e.Fail("full-stack/probe-source-changed"+tag, "probe of %s arrived with source %s", ms.Insts[p.u].Name, g.Src)
+				}
+				at = true
+			}
+			if !at {
+				e.Fail("full-stack/routed-probe-not-delivered"+tag, "%s mesh of %d real instances, edges %v: probe %s>%s was not handed to the destination within 2 s of a quiet, converged mesh", ms.Kind, n, ms.Edges, ms.Insts[p.u].Name, ms.Insts[p.v].Name)
+			}
+			e.Probe("fullstack_routed_probe_delivered")
+		}
+		ms.CheckPanics("reach" + tag)
+	}
+	// One full announcement round with all links up, then drain.
+	ms.CN.RunFor(tp, 5*time.Minute+10*time.Second, 400000)
+	ms.CN.DrainFIFO(tp, 20000)
+	if !ms.AllLinked() {
+		e.Probe("fullstack_link_lost_without_fault")
+		return
+	}
+	reach("")
+	e.Probe("fullstack_reach_checked")
+	if tp.Chance(1, 3) {
+		ps := ms.CN.Pairs()
+		var live []*simnet.ConnPair
+		for _, p := range ps {
+			if !p.A.IsClosed() && !p.B.IsClosed() {
+				live = append(live, p)
+			}
+		}
+		if len(live) > 0 {
+			p := live[tp.Intn(len(live))]
+			if tp.Chance(1, 2) {
+				p.A.FailReads(simnet.ErrSimIO)
+			} else {
+				ms.CN.DeliverBytes(p.B, nil, true)
+			}
+			e.Fault("link_break")
+			ms.CN.RunFor(tp, 5*time.Second, 40000)
+			if !waitLinked(14) {
+				e.Probe("fullstack_mesh_did_not_come_back")
+				return
+			}
+			ms.CN.RunFor(tp, 5*time.Minute+10*time.Second, 400000)
+			ms.CN.DrainFIFO(tp, 20000)
+			if !ms.AllLinked() {
+				e.Probe("fullstack_link_lost_without_fault")
+				return
+			}
+			reach("/after-a-connection-broke-and-was-redialled")
+			e.Probe("fullstack_reach_checked_after_redial")
+		}
+	}
+	e.Sample("full stack: %s mesh of %d real instances, %d connections", ms.Kind, n, len(ms.CN.Pairs()))
 }
 
 func hopNames(ms *mesh.Mesh, rte *m.RoutingTableEntry) []string {
